@@ -108,6 +108,16 @@ CHECKS = {
             'Top-level chars spans come from the strict parse; max_split with keep_empty=False is '
             'judged by a validity predicate, by the letter of the statement.',
             'DESIGN.md 5 C18'),
+    'C19': ('exploration',
+            'Hypothesis grammar documents + exhaustive/random tolerant soups; recording visitor '
+            'compared with an independent post-order enumeration of the tree',
+            'Thousands (quick) / ~100k (thorough) trees with every node kind, absent and present '
+            'arguments, list-valued arguments and (tolerant) missing bodies; the complete callback '
+            'log (callback, object identity, children results) must equal the harness\'s own '
+            'post-order.',
+            'Child enumeration is the harness\'s own (arguments in order, then body); documented '
+            'defaults accepted for missing bodies.',
+            'DESIGN.md 5 C19'),
     'C20': ('exploration',
             'bounded-exhaustive enumeration against a counting reference model',
             'Every string <= 7 (quick) / <= 9 (thorough) over {a, NL, CR, space}, every position, '
